@@ -191,6 +191,14 @@ pub(crate) fn render_vardct<S: Sample>(
             }
 
             if !frame_header.flags.skip_adaptive_lf_smoothing() {
+                if subsampled {
+                    // The LF channels differ in size; the format does not allow smoothing here.
+                    tracing::error!("Adaptive LF smoothing is enabled on a chroma-subsampled frame");
+                    return Err(jxl_bitstream::Error::ValidationFailed(
+                        "adaptive LF smoothing enabled on a chroma-subsampled frame",
+                    )
+                    .into());
+                }
                 tracing::trace_span!("Adaptive LF smoothing").in_scope(|| {
                     adaptive_lf_smoothing(
                         lf_xyb.as_color_floats_mut(),
